@@ -378,19 +378,20 @@ Proof.
 Qed.
 
 (* ---- scan_doctype ------------------------------------------------------------------------------------ *)
-Lemma scan_doctype_step inS inB c t :
-  scan_doctype inS inB (c :: t) =
-  (if c =? 34 then r <- scan_doctype (negb inS) inB t ;; Some (1 + fst r, snd r)
-   else if ((c =? 91) || (c =? 93)) && negb inS then r <- scan_doctype inS (c =? 91) t ;; Some (1 + fst r, snd r)
-   else if (c =? 62) && negb inS && negb inB then Some (0, true)
+Lemma scan_doctype_step q inB c t :
+  scan_doctype q inB (c :: t) =
+  (if (c =? q) && negb (q =? 0) then r <- scan_doctype 0 inB t ;; Some (1 + fst r, snd r)
+   else if ((c =? 34) || (c =? 39)) && negb (negb (q =? 0)) then r <- scan_doctype c inB t ;; Some (1 + fst r, snd r)
+   else if ((c =? 91) || (c =? 93)) && negb (negb (q =? 0)) then r <- scan_doctype q (c =? 91) t ;; Some (1 + fst r, snd r)
+   else if (c =? 62) && negb (negb (q =? 0)) && negb inB then Some (0, true)
    else if c =? 0 then Some (0, false)
-   else r <- scan_doctype inS inB t ;; Some (1 + fst r, snd r)).
+   else r <- scan_doctype q inB t ;; Some (1 + fst r, snd r)).
 Proof. reflexivity. Qed.
 
-Lemma scan_doctype_spec l : forall inS inB n f, scan_doctype inS inB l = Some (n, f) ->
+Lemma scan_doctype_spec l : forall q inB n f, scan_doctype q inB l = Some (n, f) ->
   0 <= n < len l /\ (forall i, 0 <= i < n -> getz l i <> 0) /\ getz l n = (if f then 62 else 0).
 Proof.
-  induction l as [|c t IH]; intros inS inB n f H; [discriminate|].
+  induction l as [|c t IH]; intros q inB n f H; [discriminate|].
   rewrite scan_doctype_step in H. rewrite len_cons. pose proof (len_nonneg t).
   assert (Hrec : forall a b, c <> 0 ->
             (r <- scan_doctype a b t ;; Some (1 + fst r, snd r)) = Some (n, f) ->
@@ -402,33 +403,40 @@ Proof.
     - intros i Hi. destruct (Z.eq_dec i 0) as [->|]; [exact Hc|].
       rewrite getz_cons_pos by lia. apply H2. lia.
     - rewrite getz_cons_succ by lia. exact H3. }
-  destruct (Z.eqb_spec c 34) as [->|N1]; [apply (Hrec (negb inS) inB ltac:(lia) H)|].
-  destruct (((c =? 91) || (c =? 93)) && negb inS) eqn:E2.
-  { apply (Hrec inS (c =? 91)); [|exact H]. b2p. intros ->. cbn in *. discriminate. }
-  destruct ((c =? 62) && negb inS && negb inB) eqn:E3.
-  { injection H as <- <-. b2p. subst c. split; [lia|]. split; [intros; lia|]. reflexivity. }
-  destruct (Z.eqb_spec c 0) as [->|N4].
-  { injection H as <- <-. split; [lia|]. split; [intros; lia|]. reflexivity. }
-  apply (Hrec inS inB N4 H).
+  destruct ((c =? q) && negb (q =? 0)) eqn:E1.
+  { apply (Hrec 0 inB); [|exact H]. b2p. lia. }
+  destruct (((c =? 34) || (c =? 39)) && negb (negb (q =? 0))) eqn:E2.
+  { apply (Hrec c inB); [|exact H]. lia. }
+  destruct (((c =? 91) || (c =? 93)) && negb (negb (q =? 0))) eqn:E3.
+  { apply (Hrec q (c =? 91)); [|exact H]. lia. }
+  destruct ((c =? 62) && negb (negb (q =? 0)) && negb inB) eqn:E4.
+  { apply some_pair_inj in H. destruct H as [-> ->]. assert (c = 62) by lia. subst c.
+    split; [lia|]. split; [intros; lia|]. reflexivity. }
+  destruct (Z.eqb_spec c 0) as [->|N5].
+  { apply some_pair_inj in H. destruct H as [-> ->]. split; [lia|]. split; [intros; lia|]. reflexivity. }
+  apply (Hrec q inB N5 H).
 Qed.
 
-Lemma scan_doctype_total a : forall inS inB, exists r, scan_doctype inS inB (a ++ [0]) = Some r.
+Lemma scan_doctype_total a : forall q inB, exists r, scan_doctype q inB (a ++ [0]) = Some r.
 Proof.
-  induction a as [|c a IH]; intros inS inB; cbn [app]; rewrite scan_doctype_step.
-  - cbn. eauto.
-  - destruct (c =? 34). { destruct (IH (negb inS) inB) as (r & ->). cbn. eauto. }
-    destruct (((c =? 91) || (c =? 93)) && negb inS). { destruct (IH inS (c =? 91)) as (r & ->). cbn. eauto. }
-    destruct ((c =? 62) && negb inS && negb inB); [eauto|].
-    destruct (c =? 0); [eauto|]. destruct (IH inS inB) as (r & ->). cbn. eauto.
+  induction a as [|c a IH]; intros q inB; cbn [app]; rewrite scan_doctype_step.
+  - change (0 =? 34) with false. change (0 =? 39) with false. change (0 =? 91) with false.
+    change (0 =? 93) with false. change (0 =? 62) with false. change (0 =? 0) with true. cbn [orb andb].
+    destruct ((0 =? q) && negb (q =? 0)) eqn:E; [exfalso; lia|]. eauto.
+  - destruct ((c =? q) && negb (q =? 0)). { destruct (IH 0 inB) as (r & ->). cbn. eauto. }
+    destruct (((c =? 34) || (c =? 39)) && negb (negb (q =? 0))). { destruct (IH c inB) as (r & ->). cbn. eauto. }
+    destruct (((c =? 91) || (c =? 93)) && negb (negb (q =? 0))). { destruct (IH q (c =? 91)) as (r & ->). cbn. eauto. }
+    destruct ((c =? 62) && negb (negb (q =? 0)) && negb inB); [eauto|].
+    destruct (c =? 0); [eauto|]. destruct (IH q inB) as (r & ->). cbn. eauto.
 Qed.
 
-Lemma scan_doctype_lx z inS inB : lx_wf z ->
-  exists n f, scan_doctype inS inB (suffix z) = Some (n, f) /\ 0 <= n /\ lpos z + n <= lx_len z /\
+Lemma scan_doctype_lx z q inB : lx_wf z ->
+  exists n f, scan_doctype q inB (suffix z) = Some (n, f) /\ 0 <= n /\ lpos z + n <= lx_len z /\
     (forall i, lpos z <= i < lpos z + n -> getz (lbuf z) i <> 0) /\
     getz (lbuf z) (lpos z + n) = (if f then 62 else 0).
 Proof.
   intros H. destruct (wf_suffix z H) as (a & Ha & Hl). pose proof (wf_range z H) as Hr.
-  destruct (scan_doctype_total a inS inB) as ([n f] & Hn). rewrite <- Ha in Hn. exists n, f.
+  destruct (scan_doctype_total a q inB) as ([n f] & Hn). rewrite <- Ha in Hn. exists n, f.
   split; [exact Hn|]. destruct (scan_doctype_spec _ _ _ _ _ Hn) as (H1 & H2 & H3).
   rewrite len_suffix in * by assumption.
   split; [lia|]. split; [lia|]. split.
